@@ -15,7 +15,7 @@ from hypothesis import strategies as st
 
 from hv.builders import hdd as bhdd
 from hv.builders import xmlcfg as bx
-from hv.core import Outcome, lib
+from hv.core import DEBUG_LOG_ENV, Outcome, lib
 from hv.props import c18
 
 ID = "C19"
@@ -52,6 +52,15 @@ def budget(tier):
     return 20000 if tier == "quick" else 80000
 
 
+VARIANT_DISTINCT_SEEDS = True
+
+
+def variants(tier):
+    # refusal must come before any expansion whatever the package's logging switches say
+    return [{"name": "default", "env": {}, "shards": 12},
+            {"name": "debug-logging", "env": DEBUG_LOG_ENV, "args": {"budget_scale": 0.2}, "shards": 4}]
+
+
 def _hook(event, args):
     if not _STATE["active"]:
         return
@@ -73,6 +82,20 @@ def ensure_env():
         _STATE["canary"] = os.path.join(d, "canary-7f3a9c.txt")
         with open(_STATE["canary"], "w") as f:
             f.write(CANARY_TEXT)
+        # everything a first parse would import is imported now, so that per-case memory peaks show the case and not the imports
+        import threading  # noqa: F401
+        import xml.dom.minidom  # noqa: F401
+        import xml.sax  # noqa: F401
+
+        import dissect.hypervisor.descriptor.ovf  # noqa: F401
+        import dissect.hypervisor.descriptor.pvs  # noqa: F401
+        import dissect.hypervisor.descriptor.vbox  # noqa: F401
+        import dissect.hypervisor.disk.hdd  # noqa: F401
+        for kind, doc in (("ovf", "<Envelope xmlns='http://schemas.dmtf.org/ovf/envelope/1'/>"), ("vbox", "<VirtualBox/>"), ("pvs", "<ParallelsVirtualMachine/>")):
+            try:
+                _parse(kind, io.StringIO(doc))
+            except Exception:  # noqa: BLE001 - warm-up only
+                pass
         import atexit
 
         atexit.register(shutil.rmtree, d, True)
@@ -89,7 +112,7 @@ def hostile_spec(draw, tier):
     kind = draw(st.sampled_from(PROLOGS))
     return {
         "entry": entry, "base": base, "prolog": kind, "depth": draw(st.integers(1, 12)), "fanout": draw(st.integers(2, 10)),
-        "leaf": draw(st.sampled_from(["lol", "A" * 50, "x", ""])), "used": draw(st.sampled_from(["text", "attr", "no", "text"])),
+        "leaf": draw(st.sampled_from(["lol", "A" * 50, "x", "", "B" * 3000])), "used": draw(st.sampled_from(["text", "attr", "no", "text"])),
         "target": draw(st.sampled_from(["file-canary", "http-local", "relative", "file-canary", "empty"])),
         # filler (comment / processing instruction / white space) in front of the DOCTYPE and inside the internal subset
         "lead": draw(st.sampled_from(LEADS)), "lead_kind": draw(st.sampled_from(["comment", "pi", "space"])),
@@ -106,6 +129,9 @@ def hostile_spec(draw, tier):
         "trailer": draw(st.sampled_from(["", "", "<!-- trailing comment -->", "<?pi data?>", "\n\n<!-- a --><!-- b -->\n"])),
         "benign_first": draw(st.booleans()),
         "xml11": draw(st.sampled_from([False, False, True])), "doctype_name": draw(st.sampled_from(["root", "Envelope", "x"])),
+        "in_thread": draw(st.sampled_from([False, False, False, True])),
+        # entity names: plain ones, or case variants of the five predefined names (which are entities like any other)
+        "ent_style": draw(st.sampled_from([None, None, None, "predefined-case"])),
     }
 
 
@@ -133,6 +159,13 @@ def make_prolog(spec, canary):
             target = _target(spec, canary)
             ext = f'SYSTEM "{target}"' if spec["extid"] == "SYSTEM" else f'PUBLIC "-//X//DTD x//EN" "{target}"'
             doctype = doctype.replace(" [", f" {ext} [", 1)
+    if spec.get("ent_style") == "predefined-case":
+        names = {f"e{i}": n for i, n in enumerate(["LT", "Amp", "QUOT", "Gt", "APOS", "Lt", "AMP", "Quot", "gT", "Apos", "lT", "aMP", "qUOT", "GT"])}
+        names.update({"n": "Quot", "g1": "Gt", "p1": "Amp", "xxe": "LT", "ext": "QUOT", "pic": "Apos"})
+        for old, new in sorted(names.items(), key=lambda kv: -len(kv[0])):
+            for a, b in ((f"ENTITY {old} ", f"ENTITY {new} "), (f"ENTITY % {old} ", f"ENTITY % {new} "), (f"&{old};", f"&{new};"), (f"%{old};", f"%{new};")):
+                doctype = doctype.replace(a, b)
+        ent = names.get(ent, ent)
     return _filler(spec.get("lead_kind", "comment"), spec.get("lead", 0)) + doctype, ent, declares
 
 
@@ -324,7 +357,7 @@ def check(spec) -> Outcome:
                 with open(pth, "wb") as f:
                     f.write(payload.encode("utf-8") if isinstance(payload, str) else payload)
                 with (open(pth, encoding="utf-8") if spec["handle"] == "file-text" else open(pth, "rb")) as fh:
-                    obj = _parse(entry, fh)
+                    obj = _parse(entry, fh, spec.get("in_thread"))
                     xml = getattr(obj, "xml", None) or getattr(obj, "_xml", None)
                     return xml, list(obj.disks())
             finally:
@@ -334,7 +367,7 @@ def check(spec) -> Outcome:
             fh = io.TextIOWrapper(io.BufferedReader(raw), encoding="utf-8") if spec["handle"] == "stream-text" else io.BufferedReader(raw)
         else:
             fh = io.StringIO(payload) if isinstance(payload, str) else io.BytesIO(payload)
-        obj = _parse(entry, fh)
+        obj = _parse(entry, fh, spec.get("in_thread"))
         xml = getattr(obj, "xml", None) or getattr(obj, "_xml", None)
         return xml, list(obj.disks())
 
@@ -356,7 +389,11 @@ def check(spec) -> Outcome:
         out.fail(f"fetch|{entry}|{events[0][0]}", f"parsing touched {events[:3]}")
     if cpu > 2.0:
         out.fail(f"cpu|{entry}", f"parsing a {size}-byte document took {cpu:.1f}s CPU")
-    if peak > (16 << 20) + 8 * size:
+    over = max(0, peak - 16 * size)
+    out.cls("peak-over-16x-input<" + next((lbl for lim, lbl in ((1 << 16, "64K"), (1 << 17, "128K"), (1 << 18, "256K"), (1 << 19, "512K"), (1 << 20, "1M"), (1 << 21, "2M"), (1 << 23, "8M")) if over < lim), "inf"))
+    # (measured on the unchanged tree: no case is more than 256 KiB above 16 x its input size; hostile documents are refused at the
+    # first entity declaration, long before anything is expanded)
+    if peak > (1 << 20) + 16 * size:
         out.fail(f"memory|{entry}", f"parsing a {size}-byte document allocated {peak} bytes at peak")
     if declares:
         if err is None:
@@ -381,7 +418,25 @@ def check(spec) -> Outcome:
     return out
 
 
-def _parse(entry, fh):
+def _parse(entry, fh, in_thread=False):
+    if in_thread:
+        # a caller that parses descriptors in worker threads (thread pools are how collections of VMs get processed)
+        import threading
+
+        box = {}
+
+        def work():
+            try:
+                box["obj"] = _parse(entry, fh)
+            except BaseException as e:  # noqa: BLE001 - handed to the calling thread
+                box["exc"] = e
+
+        th = threading.Thread(target=work)
+        th.start()
+        th.join()
+        if "exc" in box:
+            raise box["exc"]
+        return box["obj"]
     if entry == "ovf":
         from dissect.hypervisor.descriptor.ovf import OVF
 
